@@ -1,4 +1,5 @@
 import Ufo2ftModel.Props.C05ApplyDet
+import Ufo2ftModel.Props.C05ApplyNames
 import Ufo2ftModel.Props.C05ApplyProg
 /-! C05 end-to-end: `applyKern (program …) tag g1 g2 = quantize (ufoKern …)` — what a shaper applies to an adjacent glyph pair
     under a script tag, computed by the GPOS application semantics of `Spec/C05Apply.lean` on the program the kern-writer model
@@ -26,27 +27,27 @@ theorem item_zero (c : Ctx) (pairs : List KPair) (marks : Option (List String)) 
   obtain ⟨e, he, rfl⟩ := mem_map.mp hit'
   exact bucketLookup_zero c _ _ e g1 g2 (h m1 hm1 e he rfl)
 
-/-- **C05 end-to-end.**  For well-formed kerning (`wfKern`), a Unicode context as fontTools supplies it (`ctxOK`), two glyphs
-    of the font that are both of script `s` or script-neutral (`inScript`), an OpenType tag of `s` whose feature the writer writes
-    (`featOn`), lookup names that tell the lookups apart (`namesOK`), and the pair outside the three known bidi-cell shapes
-    (`cellClean`):  the adjustment a shaper applies to `g1 g2` under `tag` — the emitted kern program read by the GPOS
-    application semantics — is the UFO kerning value of the pair rounded to the quantisation step; in a right-to-left script
-    the x-placement is that value too (and zero otherwise). -/
-theorem C05_end_to_end (c : Ctx) (r : RegCtx) (gs : List String) (groups : List (String × List String))
-    (kerning : List (String × String × Q)) (q : Q) (marks : Option (List String)) (im tk td : Bool) (s tag g1 g2 : String)
+/-- The composition up to "which lookups are referenced": for ANY list of lookup names that contains every built lookup filed
+    under `s` (when one of the glyphs is a letter of `s`), resp. every built Common lookup (when both are neutral), applying the
+    named lookups of the emitted program gives the rounded UFO value -/
+theorem C05_sum (c : Ctx) (r : RegCtx) (gs : List String) (groups : List (String × List String))
+    (kerning : List (String × String × Q)) (q : Q) (marks : Option (List String)) (im tk td : Bool) (s g1 g2 : String)
     (hw : wfKern gs groups kerning = true) (hctx : ctxOK c gs = true) (hg1 : g1 ∈ gs) (hg2 : g2 ∈ gs)
-    (hsD : DFLT_SCRIPTS.contains s = false) (htag : tag ∈ (alookup s r.otTags).getD [])
-    (hin1 : c.inScript s g1 = true) (hin2 : c.inScript s g2 = true) (hfeat : featOn c r tk td s g1 g2 = true)
-    (hnames : namesOK c (getKerningPairs gs (getKerningGroups gs groups) q kerning) marks im = true)
-    (hclean : cellClean c gs groups kerning q marks im s g1 g2 = true) :
-    applyKern (program c r gs groups kerning q marks im tk td) tag g1 g2 =
+    (hsD : DFLT_SCRIPTS.contains s = false)
+    (hin1 : c.inScript s g1 = true) (hin2 : c.inScript s g2 = true) (hsc : scriptsOK c gs = true)
+    (hclean : cellClean c gs groups kerning q marks im s g1 g2 = true) (names : List String)
+    (hA : (s ∈ c.resolved g1 ∨ s ∈ c.resolved g2) → ∀ L, (program c r gs groups kerning q marks im tk td).built L.name = true →
+      Has (makeKerningLookups c (genPairs gs groups kerning q) marks im) s L → L.name ∈ names)
+    (hB : ¬(s ∈ c.resolved g1 ∨ s ∈ c.resolved g2) → ∀ L, (program c r gs groups kerning q marks im tk td).built L.name = true →
+      Has (makeKerningLookups c (genPairs gs groups kerning q) marks im) COMMON L → L.name ∈ names) :
+    applyNames (program c r gs groups kerning q marks im tk td) names g1 g2 =
       (quantize (ufoKern groups kerning g1 g2) q, if c.dir s == "RTL" then quantize (ufoKern groups kerning g1 g2) q else 0) := by
   have w := wf_of_wfKern gs groups kerning hw
   have ok := ctxOK_of c gs hctx
   have hs : s ≠ COMMON := by
     intro e; rw [e] at hsD; simp [DFLT_SCRIPTS, COMMON] at hsD
   have hval := C05_ufo_value gs groups kerning q hw g1 g2 hg1 hg2
-  have hinj := nameInj_of_namesOK c _ marks im hnames
+  have hinj := nameInj_of_namesOK c _ marks im (namesOK_of_wf c gs groups kerning q marks im hw hsc)
   obtain ⟨minv, hhas⟩ := makeKerningLookups_spec c (genPairs gs groups kerning q) marks im hinj
   obtain ⟨hnd, hBL, hemit⟩ := emitted_spec _ hinj _ minv
   -- every emitted lookup is the lookup of some bucket of some pair list
@@ -65,7 +66,7 @@ theorem C05_end_to_end (c : Ctx) (r : RegCtx) (gs : List String) (groups : List 
     have hno : ∀ p ∈ genPairs gs groups kerning q, ¬ Matches p g1 g2 := by
       rw [detPair_eq] at hdet
       exact (firstMatch_eq_none_iff _ g1 g2).mp hdet
-    rw [applyKern_none]
+    rw [applyNames_none]
     · simp
     · intro l hl
       obtain ⟨it, hit, rfl⟩ := hitem l hl
@@ -117,35 +118,10 @@ theorem C05_end_to_end (c : Ctx) (r : RegCtx) (gs : List String) (groups : List 
     have hnd' : ((program c r gs groups kerning q marks im tk td).lookups.map (·.name)).Nodup := by
       rw [program_lookups]; exact hnd
     by_cases hmem : s ∈ c.resolved g1 ∨ s ∈ c.resolved g2
-    · -- a letter of s: the lookup is filed under s, and s is registered under the tag
+    · -- a letter of s: the lookup is filed under s
       obtain ⟨hL, hH⟩ := hfiled s (hscr.1 s hmem hs)
-      apply applyKern_single _ tag g1 g2 _ hL hnd' _ hzero
-      have hfeat' : (if r.dist.contains s then td else tk) = true := by
-        unfold featOn at hfeat
-        have : ((c.resolved g1).contains s || (c.resolved g2).contains s) = true := by
-          rcases hmem with h | h <;> simp [h]
-        rw [this] at hfeat
-        simpa using hfeat
-      obtain ⟨_, _, _, hskey⟩ := has_alookup _ _ minv s _ hH
-      obtain ⟨reg, hreg, hscript, _, _, _, hmemreg⟩ :=
-        C05_register c r (!r.dist.contains s) _ s tag hskey (by simp) hsD htag
-      have hn : (bucketLookup c m0.flag m0.sfx e0).name ∈ reg.lookups :=
-        (hmemreg _).mpr (Or.inr (Or.inr (has_names _ _ minv s _ hH)))
-      refine active_own _ tag _ reg ?_ hscript hn (hbuilt hL)
-      cases hd : r.dist.contains s with
-      | false =>
-        rw [hd] at hfeat' hreg
-        simp only [Bool.false_eq_true, if_false] at hfeat'
-        apply mem_append_left
-        rw [program_kern, hfeat', if_pos rfl]
-        simpa using hreg
-      | true =>
-        rw [hd] at hfeat' hreg
-        simp only [if_true] at hfeat'
-        apply mem_append_right
-        rw [program_dist, hfeat', if_pos rfl]
-        simpa using hreg
-    · -- both glyphs neutral: the lookup is a Common lookup; every registration references it and DFLT is registered
+      exact applyNames_single _ names g1 g2 _ hL hnd' (hA hmem _ (hbuilt hL) hH) hzero
+    · -- both glyphs neutral: the lookup is a Common lookup
       have n1 : c.resolved g1 = [COMMON] := by
         simp only [Ctx.inScript, Ctx.neutral, Bool.or_eq_true, beq_iff_eq, contains_iff_mem] at hin1
         rcases hin1 with h | h
@@ -157,36 +133,120 @@ theorem C05_end_to_end (c : Ctx) (r : RegCtx) (gs : List String) (groups : List 
         · exact h
         · exact absurd (Or.inr h) hmem
       obtain ⟨hL, hH⟩ := hfiled COMMON (hscr.2 (by rw [n1]; simp) (by rw [n2]; simp))
-      apply applyKern_single _ tag g1 g2 _ hL hnd' _ hzero
-      have htk : tk = true := by
-        unfold featOn at hfeat
-        have hc : ([COMMON] : List String).contains s = false := by
-          cases hh : ([COMMON] : List String).contains s with
-          | false => rfl
-          | true =>
-            have := contains_iff_mem.mp hh
-            simp only [mem_singleton] at this
-            exact absurd this hs
-        have : ((c.resolved g1).contains s || (c.resolved g2).contains s) = false := by
-          rw [n1, n2, hc]; rfl
-        rw [this] at hfeat
-        simpa using hfeat
-      have hcn := has_names _ _ minv COMMON _ hH
-      apply active_common _ tag _ _ (hbuilt hL)
-      · obtain ⟨reg, hreg, hscript, _⟩ := dflt_reg c r (makeKerningLookups c (genPairs gs groups kerning q) marks im) _ hcn
-        refine ⟨reg, mem_append_left _ ?_, hscript⟩
-        rw [program_kern, htk, if_pos rfl]
-        exact hreg
-      · intro reg hreg
-        rcases mem_append.mp hreg with h | h
-        · rw [program_kern, htk, if_pos rfl] at h
-          exact regs_have_common c r true _ _ hcn reg h
-        · rw [program_dist] at h
-          cases td with
-          | false => simp at h
-          | true =>
-            rw [if_pos rfl] at h
-            exact regs_have_common c r false _ _ hcn reg h
+      exact applyNames_single _ names g1 g2 _ hL hnd' (hB hmem _ (hbuilt hL) hH) hzero
+
+/-- the dictionary invariant, from the hypotheses of the end-to-end theorem -/
+theorem map_inv_of (c : Ctx) (gs : List String) (groups : List (String × List String)) (kerning : List (String × String × Q)) (q : Q)
+    (marks : Option (List String)) (im : Bool) (hw : wfKern gs groups kerning = true) (hsc : scriptsOK c gs = true) :
+    MapInv ((allItems c (genPairs gs groups kerning q) marks im).map (·.2)) (makeKerningLookups c (genPairs gs groups kerning q) marks im) :=
+  (makeKerningLookups_spec c (genPairs gs groups kerning q) marks im
+    (nameInj_of_namesOK c _ marks im (namesOK_of_wf c gs groups kerning q marks im hw hsc))).1
+
+/-- a letter of `s` is involved and the script's feature is written: the tag has a registration that references every lookup
+    filed under `s` and lists exactly the languages declared for the tag -/
+theorem reg_own (c : Ctx) (r : RegCtx) (gs : List String) (groups : List (String × List String))
+    (kerning : List (String × String × Q)) (q : Q) (marks : Option (List String)) (im tk td : Bool) (s tag g1 g2 : String)
+    (hw : wfKern gs groups kerning = true) (hsc : scriptsOK c gs = true)
+    (hsD : DFLT_SCRIPTS.contains s = false) (htag : tag ∈ (alookup s r.otTags).getD [])
+    (hfeat : featOn c r tk td s g1 g2 = true) (hmem : s ∈ c.resolved g1 ∨ s ∈ c.resolved g2)
+    (L : Lookup) (hH : Has (makeKerningLookups c (genPairs gs groups kerning q) marks im) s L) :
+    ∃ reg ∈ (program c r gs groups kerning q marks im tk td).kern ++ (program c r gs groups kerning q marks im tk td).dist,
+      reg.script = tag ∧ L.name ∈ reg.lookups ∧ reg.languages = langsOf r tag := by
+  have minv := map_inv_of c gs groups kerning q marks im hw hsc
+  have hfeat' : (if r.dist.contains s then td else tk) = true := by
+    unfold featOn at hfeat
+    have : ((c.resolved g1).contains s || (c.resolved g2).contains s) = true := by
+      rcases hmem with h | h <;> simp [h]
+    rw [this] at hfeat
+    simpa using hfeat
+  obtain ⟨_, _, _, hskey⟩ := has_alookup _ _ minv s _ hH
+  obtain ⟨reg, hreg, hscript, _, _, _, hmemreg⟩ :=
+    C05_register c r (!r.dist.contains s) _ s tag hskey (by simp) hsD htag
+  have hn : L.name ∈ reg.lookups := (hmemreg _).mpr (Or.inr (Or.inr (has_names _ _ minv s _ hH)))
+  have hlangs : reg.languages = langsOf r tag := by
+    rw [reg_languages c r _ _ reg hreg, hscript]
+  refine ⟨reg, ?_, hscript, hn, hlangs⟩
+  cases hd : r.dist.contains s with
+  | false =>
+    rw [hd] at hfeat' hreg
+    simp only [Bool.false_eq_true, if_false] at hfeat'
+    apply mem_append_left
+    rw [program_kern, hfeat', if_pos rfl]
+    simpa using hreg
+  | true =>
+    rw [hd] at hfeat' hreg
+    simp only [if_true] at hfeat'
+    apply mem_append_right
+    rw [program_dist, hfeat', if_pos rfl]
+    simpa using hreg
+
+/-- `kern` is written: every registration of either feature references every Common lookup and lists the languages declared
+    for its tag, and `DFLT` is registered -/
+theorem reg_common (c : Ctx) (r : RegCtx) (gs : List String) (groups : List (String × List String))
+    (kerning : List (String × String × Q)) (q : Q) (marks : Option (List String)) (im td : Bool)
+    (hw : wfKern gs groups kerning = true) (hsc : scriptsOK c gs = true)
+    (L : Lookup) (hH : Has (makeKerningLookups c (genPairs gs groups kerning q) marks im) COMMON L) :
+    (∀ reg ∈ (program c r gs groups kerning q marks im true td).kern ++ (program c r gs groups kerning q marks im true td).dist,
+      L.name ∈ reg.lookups ∧ reg.languages = langsOf r reg.script) ∧
+    ∃ reg ∈ (program c r gs groups kerning q marks im true td).kern ++ (program c r gs groups kerning q marks im true td).dist,
+      reg.script = "DFLT" := by
+  have minv := map_inv_of c gs groups kerning q marks im hw hsc
+  have hcn := has_names _ _ minv COMMON _ hH
+  constructor
+  · intro reg hreg
+    rcases mem_append.mp hreg with h | h
+    · rw [program_kern, if_pos rfl] at h
+      exact ⟨regs_have_common c r true _ _ hcn reg h, reg_languages c r true _ reg h⟩
+    · rw [program_dist] at h
+      cases td with
+      | false => simp at h
+      | true =>
+        rw [if_pos rfl] at h
+        exact ⟨regs_have_common c r false _ _ hcn reg h, reg_languages c r false _ reg h⟩
+  · obtain ⟨reg, hreg, hscript, _⟩ := dflt_reg c r (makeKerningLookups c (genPairs gs groups kerning q) marks im) _ hcn
+    refine ⟨reg, mem_append_left _ ?_, hscript⟩
+    rw [program_kern, if_pos rfl]
+    exact hreg
+
+theorem tk_of_neutral (c : Ctx) (r : RegCtx) (tk td : Bool) (s g1 g2 : String)
+    (hfeat : featOn c r tk td s g1 g2 = true) (hmem : ¬(s ∈ c.resolved g1 ∨ s ∈ c.resolved g2)) : tk = true := by
+  unfold featOn at hfeat
+  have : ((c.resolved g1).contains s || (c.resolved g2).contains s) = false := by
+    cases h1 : (c.resolved g1).contains s with
+    | true => exact absurd (Or.inl (contains_iff_mem.mp h1)) hmem
+    | false =>
+      cases h2 : (c.resolved g2).contains s with
+      | true => exact absurd (Or.inr (contains_iff_mem.mp h2)) hmem
+      | false => rfl
+  rw [this] at hfeat
+  simpa using hfeat
+
+/-- **C05 end-to-end.**  For well-formed kerning (`wfKern`), a Unicode context as fontTools supplies it (`ctxOK`, and script
+    names of the ISO-15924 shape: `scriptsOK`), two glyphs of the font that are both of script `s` or script-neutral (`inScript`),
+    an OpenType tag of `s` whose feature the writer writes (`featOn`), and the pair outside the three known bidi-cell shapes
+    (`cellClean`):  the adjustment a shaper applies to `g1 g2` under `tag` (default language) — the emitted kern program read by
+    the GPOS application semantics — is the UFO kerning value of the pair rounded to the quantisation step; in a right-to-left
+    script the x-placement is that value too (and zero otherwise).  (That distinct buckets get distinct lookup names is no longer
+    assumed: `namesOK_of_wf`.) -/
+theorem C05_end_to_end (c : Ctx) (r : RegCtx) (gs : List String) (groups : List (String × List String))
+    (kerning : List (String × String × Q)) (q : Q) (marks : Option (List String)) (im tk td : Bool) (s tag g1 g2 : String)
+    (hw : wfKern gs groups kerning = true) (hctx : ctxOK c gs = true) (hg1 : g1 ∈ gs) (hg2 : g2 ∈ gs)
+    (hsD : DFLT_SCRIPTS.contains s = false) (htag : tag ∈ (alookup s r.otTags).getD [])
+    (hin1 : c.inScript s g1 = true) (hin2 : c.inScript s g2 = true) (hfeat : featOn c r tk td s g1 g2 = true)
+    (hsc : scriptsOK c gs = true)
+    (hclean : cellClean c gs groups kerning q marks im s g1 g2 = true) :
+    applyKern (program c r gs groups kerning q marks im tk td) tag g1 g2 =
+      (quantize (ufoKern groups kerning g1 g2) q, if c.dir s == "RTL" then quantize (ufoKern groups kerning g1 g2) q else 0) := by
+  unfold applyKern
+  apply C05_sum c r gs groups kerning q marks im tk td s g1 g2 hw hctx hg1 hg2 hsD hin1 hin2 hsc hclean
+  · intro hmem L hb hH
+    obtain ⟨reg, hreg, hscript, hn, _⟩ := reg_own c r gs groups kerning q marks im tk td s tag g1 g2 hw hsc hsD htag hfeat hmem L hH
+    exact active_own _ tag _ reg hreg hscript hn hb
+  · intro hmem L hb hH
+    have htk := tk_of_neutral c r tk td s g1 g2 hfeat hmem
+    subst htk
+    obtain ⟨hall, hd⟩ := reg_common c r gs groups kerning q marks im td hw hsc L hH
+    exact active_common _ tag _ (fun reg hreg => (hall reg hreg).1) hb hd
 
 /-- `C05_end_to_end` with the hypotheses bundled as the decidable predicate the driver evaluates on every generated font -/
 theorem C05_end_to_end_bundled (c : Ctx) (r : RegCtx) (gs : List String) (groups : List (String × List String))
@@ -195,9 +255,63 @@ theorem C05_end_to_end_bundled (c : Ctx) (r : RegCtx) (gs : List String) (groups
     applyKern (program c r gs groups kerning q marks im tk td) tag g1 g2 = e2eExpected c groups kerning q s g1 g2 := by
   unfold e2eHyp at h
   simp only [Bool.and_eq_true, contains_iff_mem, Bool.not_eq_true'] at h
-  obtain ⟨⟨⟨⟨⟨⟨⟨⟨⟨⟨hw, hctx⟩, hg1⟩, hg2⟩, hsD⟩, htag⟩, hin1⟩, hin2⟩, hfeat⟩, hnames⟩, hclean⟩ := h
+  obtain ⟨⟨⟨⟨⟨⟨⟨⟨⟨⟨hw, hctx⟩, hg1⟩, hg2⟩, hsD⟩, htag⟩, hin1⟩, hin2⟩, hfeat⟩, hsc⟩, hclean⟩ := h
   exact C05_end_to_end c r gs groups kerning q marks im tk td s tag g1 g2 hw hctx hg1 hg2
-    hsD htag hin1 hin2 hfeat hnames hclean
+    hsD htag hin1 hin2 hfeat hsc hclean
+
+/-- **C05 end-to-end, every declared language.**  Under the hypotheses of `C05_end_to_end`, for every language the feature file
+    declares for the tag (`lang ∈ langsOf r tag`; `dflt` always is) — and, when neither glyph is a letter of the script, other
+    features neither put the tag into the ScriptList without kerning nor create a `DFLT` LangSys for the language that the
+    writer does not list (`langHyp`) — the adjustment applied in a run of (tag, language) is the rounded UFO value, with
+    the same x-placement in right-to-left scripts. -/
+theorem C05_end_to_end_lang (d : Declared) (c : Ctx) (r : RegCtx) (gs : List String) (groups : List (String × List String))
+    (kerning : List (String × String × Q)) (q : Q) (marks : Option (List String)) (im tk td : Bool) (s tag lang g1 g2 : String)
+    (hw : wfKern gs groups kerning = true) (hctx : ctxOK c gs = true) (hg1 : g1 ∈ gs) (hg2 : g2 ∈ gs)
+    (hsD : DFLT_SCRIPTS.contains s = false) (htag : tag ∈ (alookup s r.otTags).getD [])
+    (hin1 : c.inScript s g1 = true) (hin2 : c.inScript s g2 = true) (hfeat : featOn c r tk td s g1 g2 = true)
+    (hsc : scriptsOK c gs = true)
+    (hclean : cellClean c gs groups kerning q marks im s g1 g2 = true)
+    (hlang : langHyp d c r s tag lang g1 g2 = true) :
+    applyKernLang d (program c r gs groups kerning q marks im tk td) tag lang g1 g2 =
+      (quantize (ufoKern groups kerning g1 g2) q, if c.dir s == "RTL" then quantize (ufoKern groups kerning g1 g2) q else 0) := by
+  unfold langHyp at hlang
+  simp only [Bool.and_eq_true, Bool.or_eq_true, contains_iff_mem, Bool.not_eq_true'] at hlang
+  obtain ⟨hl, hdecl⟩ := hlang
+  unfold applyKernLang
+  apply C05_sum c r gs groups kerning q marks im tk td s g1 g2 hw hctx hg1 hg2 hsD hin1 hin2 hsc hclean
+  · intro hmem L hb hH
+    obtain ⟨reg, hreg, hscript, hn, hlangs⟩ := reg_own c r gs groups kerning q marks im tk td s tag g1 g2 hw hsc hsD htag hfeat hmem L hH
+    exact activeLang_own d _ tag lang _ reg hreg hscript (by rw [hlangs]; exact hl) hn hb
+  · intro hmem L hb hH
+    have htk := tk_of_neutral c r tk td s g1 g2 hfeat hmem
+    subst htk
+    obtain ⟨hall, reg0, hreg0, hs0⟩ := reg_common c r gs groups kerning q marks im td hw hsc L hH
+    have hdecl' : d.tags.contains tag = false ∧ (d.langSys.contains ("DFLT", lang) = false ∨ lang ∈ langsOf r "DFLT") := by
+      rcases hdecl with (h | h) | h
+      · exact absurd (Or.inl h) hmem
+      · exact absurd (Or.inr h) hmem
+      · exact h
+    apply activeLang_common d _ tag lang _ (fun reg hreg => (hall reg hreg).1) hb
+    · exact ⟨reg0, hreg0, hs0, by rw [(hall reg0 hreg0).2]; exact dflt_in_langsOf r _⟩
+    · intro reg hreg hs
+      rw [(hall reg hreg).2, hs]; exact hl
+    · refine ⟨hdecl'.1, ?_⟩
+      rcases hdecl'.2 with h | h
+      · exact Or.inl h
+      · right
+        intro reg hreg hs
+        rw [(hall reg hreg).2, hs]; exact h
+
+/-- `C05_end_to_end_lang`, hypotheses bundled (`e2eHyp` and `langHyp`, both evaluated by the driver) -/
+theorem C05_end_to_end_lang_bundled (d : Declared) (c : Ctx) (r : RegCtx) (gs : List String) (groups : List (String × List String))
+    (kerning : List (String × String × Q)) (q : Q) (marks : Option (List String)) (im tk td : Bool) (s tag lang g1 g2 : String)
+    (h : e2eHyp c r gs groups kerning q marks im tk td s tag g1 g2 = true) (hlang : langHyp d c r s tag lang g1 g2 = true) :
+    applyKernLang d (program c r gs groups kerning q marks im tk td) tag lang g1 g2 = e2eExpected c groups kerning q s g1 g2 := by
+  unfold e2eHyp at h
+  simp only [Bool.and_eq_true, contains_iff_mem, Bool.not_eq_true'] at h
+  obtain ⟨⟨⟨⟨⟨⟨⟨⟨⟨⟨hw, hctx⟩, hg1⟩, hg2⟩, hsD⟩, htag⟩, hin1⟩, hin2⟩, hfeat⟩, hsc⟩, hclean⟩ := h
+  exact C05_end_to_end_lang d c r gs groups kerning q marks im tk td s tag lang g1 g2 hw hctx hg1 hg2
+    hsD htag hin1 hin2 hfeat hsc hclean hlang
 
 /-- The assumption "lookup flags do not matter for an adjacent pair" costs nothing for IgnoreMarks lookups: the writer never
     puts a GDEF mark glyph into a rule of a lookup that carries the flag (such rules are made from the base halves of the
@@ -205,10 +319,10 @@ theorem C05_end_to_end_bundled (c : Ctx) (r : RegCtx) (gs : List String) (groups
     applies the same adjustments as `applyKern`, which ignores the flag. -/
 theorem C05_marks_never_in_base_lookup (c : Ctx) (r : RegCtx) (gs : List String) (groups : List (String × List String))
     (kerning : List (String × String × Q)) (q : Q) (ms : List String) (im tk td : Bool)
-    (hnames : namesOK c (getKerningPairs gs (getKerningGroups gs groups) q kerning) (some ms) im = true)
+    (hw : wfKern gs groups kerning = true) (hsc : scriptsOK c gs = true)
     (l : Lookup) (hl : l ∈ (program c r gs groups kerning q (some ms) im tk td).lookups) (hflag : l.ignoreMarks = true)
     (rule : Rule) (hr : rule ∈ l.rules) (g : String) (hg : g ∈ rule.side1 ∨ g ∈ rule.side2) : g ∉ ms := by
-  have hinj := nameInj_of_namesOK c _ (some ms) im hnames
+  have hinj := nameInj_of_namesOK c _ (some ms) im (namesOK_of_wf c gs groups kerning q (some ms) im hw hsc)
   obtain ⟨minv, _⟩ := makeKerningLookups_spec c (genPairs gs groups kerning q) (some ms) im hinj
   obtain ⟨_, hBL, _⟩ := emitted_spec _ hinj _ minv
   rw [program_lookups] at hl
